@@ -8,5 +8,7 @@ CONSTANTS
   MaxTypes = 3
   StropMode = "suffix"
   GenNsChoices = {TRUE}
+  Spellings = {"rel"}
+  CanonNs = FALSE
 INVARIANT Emit
 CHECK_DEADLOCK FALSE
